@@ -2430,6 +2430,7 @@ impl<'t, 'd> Gen<'t, 'd> {
         let surface = Surface {
             newlines: self.t.chance(1, 2),
             redundant_parens: false,
+            bare_in_module: false,
         };
         (
             self.db,
